@@ -100,6 +100,8 @@ def correspond(ctx):
     mult = 3 if ctx.widen else 1
     # 1. token-soup grammars
     for gi in range(ctx.scale(45, 450) * mult):
+        if P.enough(ctx):
+            break
         g, pieces, extra = P.gen_flat_grammar(rng)
         for ii in range(3):
             text = P.gen_flat_input(rng, pieces)
@@ -119,6 +121,8 @@ def correspond(ctx):
                         (rng.choice(P.WINDOW_PARTS), '') if rng.random() < 0.5 else None, 'scan', extra)
     # 2. structured grammar: tree metas
     for gi in range(ctx.scale(8, 40) * mult):
+        if P.enough(ctx):
+            break
         g, comments = P.gen_struct_grammar(rng)
         for ii in range(ctx.scale(6, 12)):
             text = P.gen_struct_input(rng, comments)
